@@ -102,6 +102,11 @@ class Tracer(TorchDispatchMode):
         self.events.append({"cat": "input", "op": "input", "args": [], "role": [], "snz": False,
                             "dst": 0, "dstzero": 0, "full": False, "outs": [self.sid(t)]})
 
+    def result(self, tensors):
+        """declare what the execution returned (storages): lets the harness ask whether a rejected operation can reach it"""
+        self.events.append({"cat": "result", "op": "result", "args": [[self.sid(t), 0] for t in tensors if isinstance(t, torch.Tensor)],
+                            "role": [], "snz": False, "dst": 0, "dstzero": 0, "full": False, "outs": []})
+
     def reset(self):
         self.events.append({"cat": "reset", "op": "reset", "args": [], "role": [], "snz": False,
                             "dst": 0, "dstzero": 0, "full": False, "outs": []})
@@ -161,5 +166,5 @@ class Tracer(TorchDispatchMode):
                 outs.append(self.sid(o))
         self.events.append({"cat": cat.split(":")[0] if cat.startswith("unknown") else cat, "op": name,
                             "args": targs, "role": role, "snz": snz, "dst": dst, "dstzero": dstzero, "full": bool(full),
-                            "outs": outs})
+                            "outs": outs, "boolargs": bool(tens) and all(t.dtype == torch.bool for _, t, _ in tens)})
         return out
